@@ -20,6 +20,8 @@ pub fn run(cx: &mut Ctx) {
     start_markers(cx, &g);
     crate::rules::grammar_rules::context_discipline(cx, &g);
     crate::rules::grammar_rules::field_order(cx, &g, "C01.O1");
+    crate::rules::grammar_rules::list_building_order(cx, &g, "C01.O2");
+    crate::rules::grammar_rules::expr_wiring(cx, &g, "C01.E1");
     crate::rules::grammar_rules::singleton_deviants(cx, &g);
     crate::rules::grammar_rules::paren_sensitive_flags(cx, &g);
     soft_keywords(cx);
